@@ -130,8 +130,12 @@ impl<'a, N: Normalizer> XmlSerializer<'a, N> {
                 r
             }
             Prefix(prefix_id, namespace_id) => {
-                // we don't want to output the xml prefix
-                if *namespace_id == self.xot.xml_namespace() {
+                // we don't want to output the xml prefix, which is always
+                // bound; any other prefix bound to the XML namespace has to
+                // be declared, as names may be written with it
+                if *prefix_id == self.xot.xml_prefix()
+                    && *namespace_id == self.xot.xml_namespace()
+                {
                     return Ok(OutputToken {
                         space: false,
                         text: "".to_string(),
